@@ -61,6 +61,18 @@ class DecSub(Decimal):
 		return f"DecSub({Decimal.__str__(self)!r})"
 
 
+class EqAll:
+	"""compares equal to everything (like unittest.mock.ANY) - still not None"""
+	def __eq__(self, other):
+		return True
+	def __ne__(self, other):
+		return False
+	def __hash__(self):
+		return 7
+	def __repr__(self):
+		return "EqAll()"
+
+
 class Stamp(datetime):
 	"""a datetime subclass (a time of day travels with it)"""
 
